@@ -844,7 +844,8 @@ def run(chk):
                GT("a", items=[GT("s", s) for s in LOOKALIKES]), GT("o", items=[(s, GT("n")) for s in LOOKALIKES if s]),
                GT("a", items=[GT("s", chr(c)) for c in SPECIAL_CP]), deep_gt(30, GT("s", "x")),
                GT("a", items=[GT("f", f, repr(f)) for f in (0.1, 1.5, -2.25, 1e300, 5e-324, 1e-7, 1e21, 123456.789)]),
-               GT("a", items=[GT("a", items=[]), GT("o", items=[]), GT("s", "")])]
+               GT("a", items=[GT("a", items=[]), GT("o", items=[]), GT("s", "")]),
+               GT("a", items=[GT("s", "\na")]), GT("a", items=[GT("s", "\ta\n")]), GT("o", items=[("<<", GT("i", 1, "1")), ("b", GT("i", 2, "2"))])]
     for _ in range(n_rt):
         g = gen_gt(rng, 0, rng.choice([1, 2, 3, 4]))
         rt_docs.append(g)
